@@ -65,6 +65,14 @@ func workerMain(kind string, args []string) {
 func hsmsWorker(w *iso.Worker) {
 	var m0, m1 runtime.MemStats
 	var stale []byte // one receive buffer reused for the "spare capacity" presentation
+	var steps struct {
+		items    int64
+		exceeded bool
+		seen     bool
+	}
+	hsms.VerifHook = func(inputLen int, items int64, exceeded bool) {
+		steps.items, steps.exceeded, steps.seen = items, exceeded, true
+	}
 	for i, j := range w.Jobs {
 		w.Begin(i)
 		in := j.Input
@@ -83,6 +91,7 @@ func hsmsWorker(w *iso.Worker) {
 		}
 		escaped := ""
 		ok := false
+		steps.seen, steps.exceeded, steps.items = false, false, 0
 		runtime.ReadMemStats(&m0)
 		func() {
 			defer func() {
@@ -106,6 +115,17 @@ func hsmsWorker(w *iso.Worker) {
 		w.Max("alloc_over_bound/"+j.Family, float64(delta)/float64(bound))
 		if escaped != "" {
 			w.Report(iso.Finding{Index: i, Sig: "C07/panic-escaped", What: "panic escaped hsms.Parse: " + escaped, Family: j.Family})
+		}
+		// hook H3: the decoder looks at an item at most once per two input bytes; more item steps than input bytes
+		// witness a loop that does not consume input (decided on logical steps, not on wall-clock time)
+		if steps.seen {
+			w.Classes["hook-H3-reached"]++
+			w.Max("decoder_item_steps_per_input_byte", float64(steps.items)/float64(len(in)+1))
+			if steps.exceeded {
+				w.Report(iso.Finding{Index: i, Sig: "C07/step-budget-exceeded", What: fmt.Sprintf("the decoder took %d item steps for a %d-byte input (budget len+2)", steps.items, len(in)), Family: j.Family})
+			}
+		} else {
+			w.Classes["hook-H3-not-reached"]++
 		}
 		if delta > bound {
 			w.Report(iso.Finding{Index: i, Sig: "C07/alloc-superlinear/" + j.Family,
